@@ -322,6 +322,35 @@ impl Model {
             "adj": self.adj.iter().map(|a| bits(*a).iter().map(|e| e + 1).collect::<Vec<_>>()).collect::<Vec<_>>(),
         })
     }
+    pub fn from_json(v: &Value) -> Model {
+        let fam = match v["family"].as_str().unwrap() {
+            "lifted" => Family::Lifted,
+            "knapsack" => Family::Knapsack,
+            _ => Family::SetPack,
+        };
+        let mut me = Self::blank(fam);
+        let u = |k: &str| v[k].as_u64().unwrap_or(0) as usize;
+        me.n = u("n");
+        me.b = u("b");
+        me.m = u("m");
+        me.arcs = v["arcs"].as_array().map(|ls| ls.iter().map(|l| l.as_array().unwrap().iter().map(|ds| ds.as_array().unwrap().iter().map(|d| {
+            let t = d[0].as_i64().unwrap();
+            if t == 0 { None } else { Some((t as usize - 1, d[1].as_i64().unwrap() as isize)) }
+        }).collect()).collect()).collect()).unwrap_or_default();
+        let root: Vec<u64> = v["root"].as_array().unwrap().iter().map(|x| x.as_u64().unwrap()).collect();
+        me.root = if fam == Family::Knapsack { root[0] as u32 } else { root.iter().fold(0u32, |a, e| a | 1 << (e - 1)) };
+        me.v0 = v["v0"].as_i64().unwrap() as isize;
+        me.with_depth = v["with_depth"].as_bool().unwrap();
+        me.long_arcs = v["long_arcs"].as_bool().unwrap();
+        me.rub = match v["rub"].as_str().unwrap() { "none" => RubMode::None, "exact" => RubMode::Exact, _ => RubMode::Slack };
+        me.slack = v["slack"].as_i64().unwrap() as isize;
+        me.dom = match v["dom"].as_str().unwrap() { "none" => DomMode::None, "exact" => DomMode::Exact, _ => DomMode::Keyed };
+        me.profit = v["profit"].as_array().map(|a| a.iter().map(|x| x.as_i64().unwrap() as isize).collect()).unwrap_or_default();
+        me.weight = v["weight"].as_array().map(|a| a.iter().map(|x| x.as_u64().unwrap() as usize).collect()).unwrap_or_default();
+        me.wv = v["wv"].as_array().map(|a| a.iter().map(|x| x.as_i64().unwrap() as isize).collect()).unwrap_or_default();
+        me.adj = v["adj"].as_array().map(|a| a.iter().map(|x| x.as_array().unwrap().iter().fold(0u32, |acc, e| acc | 1 << (e.as_u64().unwrap() - 1))).collect()).unwrap_or_default();
+        me
+    }
     /// the `x` component as TLC sees it: sorted 1-based members, or <<capacity>>
     pub fn xjson(&self, x: u32) -> Value {
         match self.family {
